@@ -5,7 +5,8 @@
 // stacks (real sessions, signatures, AEAD), altered as the variant says and
 // delivered to a real victim router with three peers; the state the property
 // names (keys, MTU, routing table, connection states, stored info, offline
-// flag, stored records) is snapshotted before and after. Stage T: all
+// flag, stored records) is snapshotted before and after. Stage R-lost (lost.go):
+// the same after good-byes and a loss of session objects. Stage T: all
 // observations are judged by TLC (ControlPlane_Trace).
 package main
 
@@ -46,6 +47,8 @@ type act struct {
 	Variant string  `json:"variant"`
 	Src     int     `json:"src"`
 	Table   []route `json:"table"`
+	Off     []int   `json:"off"` // "lost" cases: the routers that said good-bye before
+	How     string  `json:"how"` // "lost" cases: how the victim lost session objects afterwards
 }
 
 type scene struct {
@@ -53,13 +56,17 @@ type scene struct {
 	v       *world.Node
 	rng     *rand.Rand
 	forceMT frame.MessageType // != 0: every ping is built with this message type
+	lost    bool              // the history "good-bye, then the sessions are lost": building a ping must not make the victim touch its sessions
 }
 
 // model number n <-> mesh node n+1 (victim 0 = node 1, peers 1..3, router 4 = node 5, unknown 5 = node 6)
 func (s *scene) node(n int) *world.Node { return s.ms.Node(n + 1) }
 func (s *scene) num(a netip.Addr) int   { return s.ms.ID(a) - 1 }
 
-func newScene(rng *rand.Rand, table []route) *scene {
+func newScene(rng *rand.Rand, table []route) *scene { return newSceneOpt(rng, table, nil) }
+
+// newSceneOpt: the victim never set up end-to-end keys with the routers of unkeyed (it only knows them).
+func newSceneOpt(rng *rand.Rand, table []route, unkeyed map[int]bool) *scene {
 	edges := []mesh.Edge{{A: 1, B: 2, LA: 21, LB: 12}, {A: 1, B: 3, LA: 31, LB: 13}, {A: 1, B: 4, LA: 41, LB: 14}}
 	ms, err := mesh.New(4, edges, mesh.Opts{Extra: 2, WithTun: func(i int) bool { return i == 1 },
 		Cfg: func(i int) config.Store {
@@ -82,6 +89,9 @@ func newScene(rng *rand.Rand, table []route) *scene {
 		x := s.node(n)
 		px := x.ID.PublicAddress
 		_ = s.v.St.AddRouter(&px)
+		if unkeyed[n] {
+			continue
+		}
 		sv, sx := s.v.St.GetSession(x.ID.IP), x.St.GetSession(s.v.ID.IP)
 		kx, kxt, _ := sx.Encryption().InitKeyClientStart()
 		rk, rkt, _ := sv.Encryption().InitKeyServer(kx, kxt)
@@ -109,6 +119,9 @@ func newScene(rng *rand.Rand, table []route) *scene {
 	// connection states towards routers 1..4 (outbound TCP to port 80)
 	_ = world.WorkerCtx(func(w *mgr.WorkerCtx) {
 		for n := 1; n <= 4; n++ {
+			if unkeyed[n] {
+				continue // never talked to: sending would open a key exchange
+			}
 			pkt := tcpPacket(s.v.ID.IP, s.node(n).ID.IP, 40000+uint16(n), 80)
 			s.v.Rt.VerifHandleTunPacket(w, pkt)
 		}
@@ -143,7 +156,13 @@ type snap struct {
 	Stored  map[int]bool
 }
 
-func (s *scene) snapshot() snap {
+func (s *scene) snapshot() snap { return s.snapshotSel(nil) }
+
+// snapshotSel: State.GetSession CREATES the session object when there is none. Where the history under test is "the
+// victim has no session object for X", the snapshot taken before the ping must not be what brings it back: sessions
+// are then looked at only for the routers of live (nil = all stored routers). A router without a session object has
+// no keys and no MTU (the defaults of diffKeys). All stored flags are read before any session is looked at.
+func (s *scene) snapshotSel(live map[int]bool) snap {
 	sn := snap{Keys: map[int]string{}, MTU: map[int]int{}, Info: map[int]string{}, Offline: map[int]bool{}, Stored: map[int]bool{}}
 	q := storage.NewRouterQuery(nil, nil, 1000)
 	_ = s.v.St.QueryRouters(q)
@@ -154,6 +173,12 @@ func (s *scene) snapshot() snap {
 		if r.PublicInfo != nil {
 			b, _ := json.Marshal(r.PublicInfo)
 			sn.Info[n] = string(b)
+		}
+	}
+	for _, r := range q.Result() {
+		n := s.num(r.Address.IP)
+		if live != nil && !live[n] {
+			continue
 		}
 		if sess := s.v.St.GetSession(r.Address.IP); sess != nil {
 			h := &state.EncryptionSessionTestHelper{EncryptionSession: sess.Encryption()}
@@ -302,7 +327,9 @@ func (s *scene) genuinePing(t string, from, claim *world.Node) []byte {
 	case "hello-resp":
 		// the victim has an exchange open towards claim: answer it
 		s.ms.W.Inflight = nil
-		_, _ = s.v.Rt.HelloPing.Send(claim.ID.IP)
+		if !s.lost {
+			_, _ = s.v.Rt.HelloPing.Send(claim.ID.IP)
+		} // else: the answer to an exchange the victim no longer has (opening one would re-create the session)
 		var id uint64
 		var req router.HelloPingRequest
 		for _, fl := range s.ms.W.Inflight {
@@ -451,7 +478,7 @@ func (s *scene) via(x int) *world.Node {
 func main() { vf.Main("C07", "model_checking", run) }
 
 func run(c *vf.Ctx) {
-	c.Rule("M: TLC enumerates 12 ping types x 12 variants x claimed source x routing tables (all subsets of a 9-route catalogue with <= 4 entries for disconnects): 5835 cases, each with the only state change the property allows. R: every non-disconnect case and a seeded sample of the disconnect cases (thorough: all) built with the real peers' stacks, altered per variant (random authenticated byte/bit), delivered to a real victim with 3 peers, a gossip-known router and an unknown router; before/after snapshots of keys, MTU, routes, connection states, stored info, offline flags and stored records. T: all observations judged by TLC. distinct = distinct (type, variant, source, table)")
+	c.Rule("M: TLC enumerates 12 ping types x 12 variants x claimed source x routing tables (all subsets of a 9-route catalogue with <= 4 entries for disconnects): 5835 cases, each with the only state change the property allows. R: every non-disconnect case and a seeded sample of the disconnect cases (thorough: all) built with the real peers' stacks, altered per variant (random authenticated byte/bit), delivered to a real victim with 3 peers, a gossip-known router and an unknown router; before/after snapshots of keys, MTU, routes, connection states, stored info, offline flags and stored records. R-lost: the same pings (action LostCase of the model: type x variant x claimed source x routers that said good-bye x kind of loss) after genuine good-byes set offline flags and the victim lost session objects - ticks of the real session cleaner after idle time, or a restart of the state manager on its reloaded JSON state file; the snapshot before the ping looks at no session believed lost; incl. a genuine announcement dressed with a forged hop record naming a router that said good-bye. T: all observations judged by TLC. distinct = distinct (type, variant, source, table)")
 	c.Assume("signatures / AEAD unforgeable (also tested by the flips)", "error pings are rate limited per (code, source) for 10 s: every case runs on a fresh victim")
 
 	mc, err := c.TLC("ControlPlane", "ControlPlane_MC.cfg", vf.TLCOpts{Workers: 1, Timeout: 10 * time.Minute})
@@ -462,14 +489,20 @@ func run(c *vf.Ctx) {
 		c.Broken("M: %s violated in the model", mc.Violated)
 	}
 	c.AddModel(mc.Distinct, mc.Generated)
-	var cases []act
+	var cases, lostCases []act
 	for _, e := range mc.Edges {
 		var a act
-		if json.Unmarshal(e.Act, &a) == nil && a.Name == "case" {
+		if json.Unmarshal(e.Act, &a) != nil {
+			continue
+		}
+		switch a.Name {
+		case "case":
 			cases = append(cases, a)
+		case "lost":
+			lostCases = append(lostCases, a)
 		}
 	}
-	c.Stage("M", map[string]any{"cases": len(cases)})
+	c.Stage("M", map[string]any{"cases": len(cases), "lost_cases": len(lostCases)})
 	rng := rand.New(rand.NewSource(c.Seed))
 	// all non-disconnect cases; disconnect cases sampled in quick
 	var sel []act
@@ -665,6 +698,9 @@ func run(c *vf.Ctx) {
 		}
 		_ = bytes.Equal
 	}
+	// R-lost: the same question after good-byes and a loss of session objects (cleaner / restart)
+	events = append(events, lostStage(c, rng, lostCases)...)
+
 	rejectAt, inv, tres, err := c.TraceCheck("ControlPlane_Trace", "ControlPlane_Trace.cfg", events, vf.TLCOpts{Timeout: 30 * time.Minute, Heap: "8g"})
 	if err != nil {
 		c.Fatal("T: %v", err)
@@ -673,19 +709,44 @@ func run(c *vf.Ctx) {
 	c.AddModel(tres.Distinct, tres.Generated)
 	c.Stage("T", map[string]any{"events": len(events), "wall_s": tres.Wall.Seconds()})
 	c.Logf("T: %d observations validated", len(events))
+	evKey := func(ev map[string]any) string {
+		if ev["ev"] == "lost" && ev["variant"] == "replayed-after-loss" {
+			// one finding whatever the ping type, the kind of loss and the link: replay protection lives in the session object
+			return "lost/replayed-after-session-loss"
+		}
+		if ev["ev"] == "lost" {
+			return vf.Key("lost", ev["type"], ev["variant"])
+		}
+		return vf.Key(ev["type"], ev["variant"])
+	}
 	for rejectAt > 0 || inv != "" {
 		ev := events[rejectAt-1].(map[string]any)
 		what := "state changed although the ping is not authentic as its source"
 		if v := fmt.Sprint(ev["variant"]); v == "genuine" || v == "transit" || v == "first-genuine" {
 			what = "an authentic ping changed more than its type allows"
+		} else if v == "replayed-after-loss" {
+			what = "a replayed ping changed state: the victim had received this very ping before it lost its session objects"
+		} else if v == "forged-hop" {
+			what = "a genuine announcement dressed with a hop record its named router never signed changed state of a router other than the announcing one"
 		}
 		if ev["panic"] == true {
 			what = "the router worker panicked"
 		}
-		c.Violation(vf.Key(ev["type"], ev["variant"]), fmt.Sprintf("%s ping, variant %s, claimed source %v (%v): %s - changed keys %v mtu %v routes %v->%v conn %v info %v offline %v stored %v",
-			ev["type"], ev["variant"], ev["src"], ev["detail"], what, ev["keys"], ev["mtu"], ev["before"], ev["after"], ev["conn"], ev["info"], ev["offline"], ev["stored"]), ev, nil)
-		// continue with the rest of the observations
-		events = events[rejectAt:]
+		hist := ""
+		if ev["ev"] == "lost" {
+			hist = fmt.Sprintf("after routers %v said good-bye (offline flag set) and the victim lost session objects (%s): ", ev["off"], ev["how"])
+		}
+		key := evKey(ev)
+		c.Violation(key, fmt.Sprintf("%s%s ping, variant %s, claimed source %v (%v): %s - changed keys %v mtu %v routes %v->%v conn %v info %v offline %v stored %v",
+			hist, ev["type"], ev["variant"], ev["src"], ev["detail"], what, ev["keys"], ev["mtu"], ev["before"], ev["after"], ev["conn"], ev["info"], ev["offline"], ev["stored"]), ev, nil)
+		// continue with the rest of the observations; one with the same key would not be reported a second time
+		rest := events[rejectAt:]
+		events = events[:0:0]
+		for _, e := range rest {
+			if evKey(e.(map[string]any)) != key {
+				events = append(events, e)
+			}
+		}
 		if len(events) == 0 {
 			break
 		}
